@@ -15,6 +15,46 @@ func init() {
 	register("panic", 10, genPanics)
 	register("evalorder", 5, genEvalOrder)
 	register("func", 5, genFuncs)
+	register("scope", 4, genScope)
+}
+
+// genScope: shadowing and the scopes of if/for/switch init statements.
+func genScope(g *G) string {
+	switch g.n(3) {
+	case 0:
+		g.P("x := %d", g.n(9))
+		g.P("out := \"\"")
+		g.P("if x := x * 2; x > %d {", g.n(12))
+		g.P("\tout += \"a\" + itoa(int64(x))")
+		g.P("} else if y := x + 1; y%%2 == 0 {")
+		g.P("\tx := \"str\"")
+		g.P("\tout += \"b\" + x + itoa(int64(y))")
+		g.P("} else {")
+		g.P("\tx, y = y, x")
+		g.P("\tout += \"c\" + itoa(int64(x)) + itoa(int64(y))")
+		g.P("}")
+		g.P("for x := 0; x < 2; x++ {")
+		g.P("\tx := x * 10")
+		g.P("\tout += \"f\" + itoa(int64(x))")
+		g.P("}")
+		g.P("println(\"scope \" + out + \" \" + itoa(int64(x)))")
+		return "scope:if-for-init"
+	case 1:
+		g.D("var %s = %d", g.T("pkg"), g.n(50))
+		g.D("func %s() int { return %s }", g.T("get"), g.T("pkg"))
+		g.P("before := %s()", g.T("get"))
+		g.P("%s := %s + 1", g.T("pkg"), g.T("pkg"))
+		g.P("%s++", g.T("pkg"))
+		g.P("f := func() int { %s += 10; return %s }", g.T("pkg"), g.T("pkg"))
+		g.P("r := f()")
+		g.P("println(\"shadow-pkg \" + itoa(int64(before)) + itoa(int64(%s)) + itoa(int64(r)) + itoa(int64(%s())))", g.T("pkg"), g.T("get"))
+		return "scope:shadow-package-var"
+	default:
+		g.D("func %s(n int) (res int, err string) {\n\tif n > 2 {\n\t\tres, err := n*2, \"inner\"\n\t\t_, _ = res, err\n\t}\n\tfor i, res := 0, 100; i < n; i++ {\n\t\tres += i\n\t\terr = itoa(int64(res))\n\t}\n\tres += n\n\treturn\n}", g.T("f"))
+		g.P("a, b := %s(%d)", g.T("f"), g.n(6))
+		g.P("println(\"named-shadow \" + itoa(int64(a)) + \" \" + b)")
+		return "scope:named-result-shadow"
+	}
 }
 
 func genClosures(g *G) string {
@@ -283,7 +323,7 @@ func genMethods(g *G) string {
 
 func genIfaces(g *G) string {
 	S, I := g.T("S"), g.T("I")
-	switch g.n(8) {
+	switch g.n(9) {
 	case 0, 1: // type switch over mixed values
 		g.D("type %s struct{ n int }", S)
 		g.D("func (s %s) String() string { return \"S\" + itoa(int64(s.n)) }", S)
@@ -400,6 +440,18 @@ func genIfaces(g *G) string {
 			g.P("println(itoa(int64(i.M())))")
 		}
 		return "iface:nil-method-call"
+	case 7: // method value taken from an interface, interface embedded in a struct
+		g.D("type %s interface{ Get() int }", I)
+		g.D("type %s struct{ n int }", S)
+		g.D("func (s *%s) Get() int { s.n++; return s.n }", S)
+		g.D("type %s struct {\n\t%s\n\tlabel string\n}", g.T("W"), I)
+		g.P("s := &%s{%d}", S, g.n(9))
+		g.P("var i %s = s", I)
+		g.P("f := i.Get")
+		g.P("i = &%s{100}", S)
+		g.P("w := %s{s, \"w\"}", g.T("W"))
+		g.P("println(\"mv \" + itoa(int64(f())) + itoa(int64(i.Get())) + itoa(int64(w.Get())) + w.label + itoa(int64(s.n)))")
+		return "iface:method-value-embedded"
 	default: // assertion from one interface to another, and to concrete via switch with fallthrough-free cases
 		g.D("type %s interface{ A() int }", I)
 		g.D("type %s interface{ B() int }", g.T("J"))
